@@ -168,10 +168,14 @@ def check_parser(rep, repo):
            f"returns '{show(rets[0].value)[:160] if rets else '?'}'")
     raises = [e for e in w.events if e.kind == "raise"]
     counts = ("idx", ("call", ("mod", "numpy.unique"), (Yt,), (("return_counts", ("const", True)),)), ("const", 1))
-    n = ("call", ("builtin", "len"), (counts,), ())
+    # the number of distinct labels: the length of np.unique(Y) or of either array of np.unique(Y, return_counts=True)
+    uniq = ("call", ("mod", "numpy.unique"), (Yt,), (("return_counts", ("const", True)),))
+    bases = [counts, ("idx", uniq, ("const", 0)), ("call", ("mod", "numpy.unique"), (Yt,), ())]
+    ns = [f(b) for b in bases for f in (lambda b: ("call", ("builtin", "len"), (b,), ()), lambda b: ("attr", b, "size"),
+                                        lambda b: ("idx", ("attr", b, "shape"), ("const", 0)))]
     mx = [("bin", "+", *sorted([("const", 1), ("call", ("mod", f), (Yt,), ())], key=repr)) for f in ("numpy.max", "numpy.amax")]
     from ..ir import facts
-    okr = any(facts(e.guards) == (("cmp", "!=", *sorted([n, m], key=repr)),) for e in raises for m in mx)
+    okr = any(facts(e.guards) == (("cmp", "!=", *sorted([n, m], key=repr)),) for e in raises for m in mx for n in ns)
     rep.fn("PARSE-sequential", fi, "non-sequential labels are rejected", okr,
            "expected a raise exactly under len(distinct labels) != max(label) + 1 (no further condition)")
     if rets and raises:
@@ -333,7 +337,8 @@ def check_converters(rep, repo):
         w = Walker(repo, fi, inline=inline_same_module_private(fi))
         calls = [e for e in w.events if e.kind == "call" and e.name == "numpy.loadtxt"]
         ok = len(calls) == 1 and calls[0].args[:1] == (("param", fi.params[0]),) \
-            and dict(calls[0].kwargs).get("delimiter") == ("const", delim) and set(dict(calls[0].kwargs)) <= {"delimiter"}
+            and dict(calls[0].kwargs).get("delimiter") == ("const", delim) and set(dict(calls[0].kwargs)) <= {"delimiter", "ndmin"} \
+            and dict(calls[0].kwargs).get("ndmin", ("const", 2)) == ("const", 2)  # (ndmin=2: a one-row file stays a table)
         rep.fn("LOAD-text", fi, f"{loader} parses '{delim}'-separated float64 text", ok,
                f"loader call: {calls[0].text()[:120] if calls else '?'} (a dtype narrower than float64 rounds identifiers "
                "and features; another delimiter cannot read what the converter writes)")
@@ -350,11 +355,25 @@ def check_converters(rep, repo):
             if ft[0] == "call" and ft[1] == ("mod", "numpy.asarray") and len(ft[2]) == 1 and ft[2][0][0] == "idx" \
                     and ft[2][0][2] == ("const", "features"):
                 D = ft[2][0][1]
-            if D is not None and D[0] == "iter" and D[1][0] == "idx" and D[1][2] == ("const", "data"):
-                key = lambda k: ("idx", D, ("const", k))
+            def record(D):
+                """D is the record of one pass over <json>["data"] (element loop, or enumerate with D = data[position])."""
+                data = lambda t: t[0] == "idx" and t[2] == ("const", "data")
+                if D[0] == "iter" and data(D[1]):
+                    return True
+                if D[0] == "iterproj" and D[3] == (1,) and D[1][0] == "call" and D[1][1] == ("builtin", "enumerate") \
+                        and len(D[1][2]) == 1 and data(D[1][2][0]):
+                    return True
+                return D[0] == "idx" and data(D[1]) and D[2][0] == "iterproj" and D[2][3] == (0,) \
+                    and D[2][1] == ("call", ("builtin", "enumerate"), (D[1],), ())
+            if D is not None and record(D):
+                def reads(t, k):
+                    # D[k], or D.get(k, <default>): every record the converter writes has the key (rule CONV-row)
+                    return t == ("idx", D, ("const", k)) or (
+                        t[0] == "call" and t[1] == ("attr", D, "get") and t[2][:1] == (("const", k),) and len(t[2]) == 2 and not t[3])
                 if m[0] == "call" and m[1] == ("mod", "numpy.asarray") and m[2] and m[2][0][0] == "alloc" \
                         and m[2][0][1] == "list":
-                    okj = m[2][0][2] == (key("id"), key("label"))
+                    pair = m[2][0][2]
+                    okj = len(pair) == 2 and reads(pair[0], "id") and reads(pair[1], "label")
     rep.fn("LOAD-json", fi, "load_json rebuilds rows as (id, label, features...) from the 'data' list", okj,
            "the JSON loader must read the keys the converter writes, in id, label, features order")
     # Subgraph._load dispatch
